@@ -262,8 +262,8 @@ def judge_ladder(o: Outcome, c, ob):
     # (complete outputs are compared where no error element is involved)
     if (real_cut, real_msg) != (c["cls"] == "cut", model_msg) or (not real_msg and ob["nout"] != tr.text(c["out"])):
         asis_msg = any(m["sortid"] == "core/1115" for m in c["asis_msgs"])
-        if c["asis_overrun"] or ((real_cut, real_msg) == (c["asis_cls"] == "cut", asis_msg) and (real_msg or ob["nout"] == tr.text(c["asis_out"]))):
-            # the as-is design (its prediction, or beyond the region in which it predicts anything), no exception: nothing to report
+        if not c["asis_overrun"] and (real_cut, real_msg) == (c["asis_cls"] == "cut", asis_msg) and (real_msg or ob["nout"] == tr.text(c["asis_out"])):
+            # exactly what the twin says for the as-is design, and no exception: nothing to report
             _G["asis_ladders"] = _G.get("asis_ladders", 0) + 1
         else:
             o.note_drift({"ladder": name, "model": c["cls"] + ("+error" if model_msg else ""), "real": ("cut" if real_cut else "plain") + ("+error" if real_msg else ""),
